@@ -1307,7 +1307,7 @@ class Ctx:
         fresh arguments for every path."""
         return self.merged(lambda _i: call(fn, *a, **k))
 
-    MERGED_BUDGET_S = float(os.environ.get("PYVC_MERGED_BUDGET_S", "40"))
+    MERGED_BUDGET_S = float(os.environ.get("PYVC_MERGED_BUDGET_S", "120"))
 
     def merged(self, thunk, max_paths=256, max_seconds=None):
         """thunk(path_index) -> call() outcome, run on every feasible path from the
